@@ -65,12 +65,27 @@ def cel_text(e) -> str:
     if k == "listnest":                  # ["listnest", var, depth, n, gated]   [[[v]]][0][0][0] == n
         v = f"gate({e[1]})" if e[4] else e[1]
         return "[" * e[2] + v + "]" * e[2] + "[0]" * e[2] + f" == {e[3]}"
+    if k == "sfn":                       # ["sfn", function, string variable, argument]        s.matches('^a+$')
+        return f"{e[2]}.{e[1]}({str_arg(e[3])})"
+    if k == "smacro":                    # ["smacro", all|exists|count, [string variables], function, argument, n]
+        call = f"n.{e[3]}({str_arg(e[4])})"          # one argument applied to every item: [s0, s1].all(n, n.matches('^a+$'))
+        lst = "[" + ", ".join(e[2]) + "]"
+        if e[1] == "count":              # n < 0: the number itself is the result (every single call shows in it)
+            return f"{lst}.filter(n, {call}).size()" + (f" == {e[5]}" if e[5] >= 0 else "")
+        return f"{lst}.{e[1]}(n, {call})"
     raise ValueError(e)
+
+
+def str_arg(a) -> str:
+    """["lit", text] -> a CEL string literal, ["var", name] -> the variable"""
+    return a[1] if a[0] == "var" else "'" + a[1] + "'"
 
 
 def has_gate(e) -> bool:
     if e[0] in ("addchain", "listnest"):
         return bool(e[4])
+    if e[0] in ("sfn", "smacro"):
+        return False
     return e[0] == "gate" or any(isinstance(x, list) and has_gate(x) for x in e[1:])
 
 
@@ -79,6 +94,10 @@ def expr_vars(e) -> List[str]:
     k = e[0]
     if k in ("eq", "lt", "addeq", "addchain", "listnest"):
         return [e[1]]
+    if k == "sfn":
+        return [e[2]] + ([e[3][1]] if e[3][0] == "var" else [])
+    if k == "smacro":
+        return list(e[2]) + ([e[4][1]] if e[4][0] == "var" else [])
     out: List[str] = []
     for x in e[1:]:
         if isinstance(x, list):
@@ -131,8 +150,8 @@ def interp_tokens(e) -> List[str]:
         for _ in range(e[2]):
             a = ["bin", "add"] + a + ["lit", "i:1"]
         return ["bin", "eq"] + a + ["lit", f"i:{e[3]}"]
-    if k == "listnest":
-        raise Untranslatable("list literals are outside the model's fragment")
+    if k in ("listnest", "sfn", "smacro"):
+        raise Untranslatable("list literals and strings are outside the model's fragment")
     raise ValueError(e)
 
 
@@ -281,7 +300,7 @@ def build(th, gate=None):
 
 def bindings(th):
     from celpy import celtypes as ct
-    return {k: ct.IntType(v) for k, v in th["binds"]}
+    return {k: ct.StringType(v) if isinstance(v, str) else ct.IntType(v) for k, v in th["binds"]}
 
 
 def solo(th) -> str:
@@ -293,7 +312,7 @@ def solo(th) -> str:
 def solo_ops(th):
     """the thread's evaluation as a c05 history (run alone in a pristine process)"""
     return [["E", th["runner"], None, []], ["P", 0, {"src": cel_text(th["expr"])}],
-            ["G", 0, 0, {"form": "dict", "fns": [["gate", "ident", 0], ["idf", "ident", 0]]}], ["V", 0, [[k, ["i", v]] for k, v in th["binds"]]]]
+            ["G", 0, 0, {"form": "dict", "fns": [["gate", "ident", 0], ["idf", "ident", 0]]}], ["V", 0, [[k, ["s" if isinstance(v, str) else "i", v]] for k, v in th["binds"]]]]
 
 
 def solo_canon(obs) -> str:
@@ -364,6 +383,13 @@ def _timed_out(d) -> bool:
     return any(x == "HARNESS-TIMEOUT" for x in (d.get("hold") or []))
 
 
+def _hung(d) -> bool:
+    """did the worker diagnose a step/thread that never returns (c16_worker.diagnose_wait)?"""
+    if any(str(x).startswith("HANG") for x in (d.get("hold") or [])):
+        return True
+    return any(o and o[0] == "HANG" for obs in (d.get("tobs") or []) for o in obs)
+
+
 def run_jobs_retry(jobs, timeout):
     """`run_jobs`; jobs in which the worker's own step timeout fired are run once more, two at a time; if that happens
     again it is a tool timeout (exit 2) — a harness timeout is never reported as an outcome of the implementation"""
@@ -375,6 +401,14 @@ def run_jobs_retry(jobs, timeout):
             if _timed_out(res2[j["id"]]):
                 raise ToolTimeout("worker step timeout (twice) in job " + str(j["id"])[:200])
             res[j["id"]] = res2[j["id"]]
+    # a diagnosed hang must reproduce: the job is run once more; the second run's answer stands (a hang again, or the outcome)
+    hung = [j for j in jobs if _hung(res[j["id"]])]
+    if hung:
+        res3 = run_jobs(hung, timeout)
+        for j in hung:
+            if _timed_out(res3[j["id"]]):
+                raise ToolTimeout("worker step timeout when re-running a hung job " + str(j["id"])[:200])
+            res[j["id"]] = res3[j["id"]]
     return res
 
 
@@ -419,14 +453,152 @@ def gate_replay(threads) -> List[str]:
 
 # ---- (2) schedule explorer on sys.settrace --------------------------------------------------------
 
+MUTATORS = {"append", "add", "update", "setdefault", "pop", "clear", "extend", "insert", "remove", "discard", "popitem",
+            "__setitem__", "move_to_end", "appendleft"}
+_SHARED: Dict[str, Any] = {}
+
+
+def shared_state_functions(pkg_dir: Optional[str] = None):
+    """Round 3.  The functions of the celpy package that WRITE process-wide state — they rebind a module global (`global x`),
+    assign/delete an attribute or an item reached from a module-level name, a class (`Cls.attr`, `cls.attr`, `type(self).attr`,
+    `self.__class__.attr`) or call a mutating method on such an object — and the functions that READ a name/attribute some
+    function writes.  Read from the source text of the current tree (ast), so a memo, counter, "last used" slot or cache that a
+    change adds at module or class level turns its readers and writers into scheduling regions of the explorer.
+    Returns {(file name, function name, first line): [what is written/read]}."""
+    import celpy
+    pkg_dir = pkg_dir or os.path.dirname(celpy.__file__)
+    if pkg_dir in _SHARED:
+        return _SHARED[pkg_dir]
+    fns = []            # (path, FunctionDef, class name, module-level names)
+    clsattrs: Dict[str, set] = {}       # class -> its class-level containers (`memo: Dict[...] = {}`), shared through `self.memo[...]` too
+    for fn in sorted(os.listdir(pkg_dir)):
+        if not fn.endswith(".py") or fn in ("c7nlib.py", "__main__.py"):
+            continue
+        path = os.path.join(pkg_dir, fn)
+        try:
+            mod = ast.parse(open(path).read())
+        except Exception:  # noqa
+            continue
+        modnames = set()
+        for st in mod.body:
+            if isinstance(st, (ast.Assign, ast.AnnAssign)):
+                for t in (st.targets if isinstance(st, ast.Assign) else [st.target]):
+                    if isinstance(t, ast.Name):
+                        modnames.add(t.id)
+            elif isinstance(st, ast.ClassDef):
+                modnames.add(st.name)
+
+        def walk(body, cls):
+            for st in body:
+                if isinstance(st, (ast.FunctionDef, ast.AsyncFunctionDef)):
+                    fns.append((path, st, cls, modnames))
+                    walk(st.body, cls)
+                elif isinstance(st, ast.ClassDef):
+                    for x in st.body:
+                        v = getattr(x, "value", None)
+                        if isinstance(x, (ast.Assign, ast.AnnAssign)) and (isinstance(v, (ast.Dict, ast.List, ast.Set)) or (
+                                isinstance(v, ast.Call) and ast.unparse(v.func).split(".")[-1] in
+                                ("dict", "list", "set", "defaultdict", "OrderedDict", "deque", "Counter", "WeakValueDictionary", "WeakKeyDictionary"))):
+                            for t in (x.targets if isinstance(x, ast.Assign) else [x.target]):
+                                if isinstance(t, ast.Name):
+                                    clsattrs.setdefault(st.name, set()).add(t.id)
+                    walk(st.body, st.name)
+                elif isinstance(st, (ast.If, ast.Try, ast.With)):
+                    walk([x for x in ast.iter_child_nodes(st) if isinstance(x, ast.stmt)], cls)
+        walk(mod.body, None)
+
+    def scope(fn):
+        a = fn.args
+        locs = {x.arg for x in a.args + a.kwonlyargs + a.posonlyargs}
+        locs |= {x.arg for x in (a.vararg, a.kwarg) if x is not None}
+        globs = set()
+        for n in ast.walk(fn):
+            if isinstance(n, ast.Global):
+                globs.update(n.names)
+            elif isinstance(n, ast.Name) and isinstance(n.ctx, ast.Store):
+                locs.add(n.id)
+        return locs - globs, globs
+
+    def shared_root(e, locs, modnames, cls):
+        """the process-wide object an expression is reached from: 'name' (module global) / 'Cls.attr' / None"""
+        if isinstance(e, ast.Name):
+            if e.id == "cls" and cls:
+                return cls
+            return e.id if (e.id in modnames and e.id not in locs) else None
+        if isinstance(e, ast.Attribute):
+            if e.attr == "__class__" and cls:
+                return cls
+            if isinstance(e.value, ast.Name) and e.value.id == "self":
+                return f"{cls}.{e.attr}" if cls and e.attr in clsattrs.get(cls, ()) else None
+            r = shared_root(e.value, locs, modnames, cls)
+            return None if r is None else (r + "." + e.attr if r[:1].isupper() and "." not in r else r)
+        if isinstance(e, ast.Subscript):
+            return shared_root(e.value, locs, modnames, cls)
+        if isinstance(e, ast.Call) and isinstance(e.func, ast.Name) and e.func.id == "type" and cls:
+            return cls
+        return None
+
+    written: Dict[Any, List[str]] = {}
+    wnames = set()
+    for path, fn, cls, modnames in fns:
+        locs, globs = scope(fn)
+        why = []
+        for n in ast.walk(fn):
+            tg: List[Any] = []
+            if isinstance(n, ast.Assign):
+                tg = n.targets
+            elif isinstance(n, (ast.AugAssign, ast.AnnAssign)):
+                tg = [n.target]
+            elif isinstance(n, ast.Delete):
+                tg = n.targets
+            for t in tg:
+                for e in (t.elts if isinstance(t, (ast.Tuple, ast.List)) else [t]):
+                    if isinstance(e, ast.Name) and e.id in globs:
+                        why.append(e.id)
+                    elif isinstance(e, (ast.Attribute, ast.Subscript)):
+                        if isinstance(e, ast.Attribute) and isinstance(e.value, ast.Name) and e.value.id == "self":
+                            continue            # rebinding an attribute of the instance
+                        r = shared_root(e, locs, modnames, cls) if isinstance(e, ast.Attribute) else shared_root(e.value, locs, modnames, cls)
+                        if r and not (isinstance(e, ast.Attribute) and r == e.attr):
+                            why.append(r)
+            if isinstance(n, ast.Call) and isinstance(n.func, ast.Attribute) and n.func.attr in MUTATORS:
+                r = shared_root(n.func.value, locs, modnames, cls)
+                if r:
+                    why.append(r)
+        if why:
+            written[(path, fn.name, min([fn.lineno] + [d.lineno for d in fn.decorator_list]))] = ["writes " + x for x in sorted(set(why))]
+            wnames |= set(why)
+    out = dict(written)
+    for path, fn, cls, modnames in fns:
+        key = (path, fn.name, min([fn.lineno] + [d.lineno for d in fn.decorator_list]))
+        if key in out:
+            continue
+        locs, _ = scope(fn)
+        reads = set()
+        for n in ast.walk(fn):
+            if isinstance(n, ast.Name) and n.id in wnames and n.id not in locs and n.id in modnames:
+                reads.add(n.id)
+            elif isinstance(n, ast.Attribute):
+                r = shared_root(n, locs, modnames, cls)
+                if r in wnames:
+                    reads.add(r)
+                elif cls and isinstance(n.value, ast.Name) and n.value.id == "self" and f"{cls}.{n.attr}" in wnames:
+                    reads.add(f"{cls}.{n.attr}")
+        if reads:
+            out[key] = ["reads " + x for x in sorted(reads)]
+    _SHARED[pkg_dir] = out
+    return out
+
+
 class Explorer:
     """drives real threads through chosen interleavings.  A *scheduling point* is a `line` event of
     `Transpiler.evaluate` / `Evaluator.evaluate` / `Evaluator.set_activation` / `result` in evaluation.py,
     of `CompiledRunner.evaluate` / `InterpretedRunner.evaluate`, and of the transpiled code (`<string>`: the module-level
     statements and the lambdas).  Exactly one thread runs between two scheduling decisions."""
 
-    def __init__(self, threads):
+    def __init__(self, threads, points="all"):
         import celpy.evaluation
+        self.only_shared = points == "shared"
         self.threads = threads
         self.n = len(threads)
         self.progs = [build(t) for t in threads]
@@ -434,9 +606,21 @@ class Explorer:
         self.evfile = celpy.evaluation.__file__
         self.initfile = sys.modules["celpy"].__file__
         self.names = {"evaluate", "result", "set_activation"}
+        # round 3: functions that write (or read what is written) process-wide state are scheduling regions too, together with the
+        # celpy functions they call directly (a check-then-use whose check is a Python-level __eq__/__ne__/__hash__ of a value)
+        self.shared = {(f, n) for (f, n, _l) in shared_state_functions()}
+        self.pkg = os.path.dirname(self.initfile) + os.sep
 
-    def interesting(self, code) -> bool:
+    def interesting(self, code, frame=None) -> bool:
         fn = code.co_filename
+        if self.shared and fn.startswith(self.pkg):
+            if (fn, code.co_name) in self.shared:
+                return True
+            b = frame.f_back if frame is not None else None
+            if b is not None and (b.f_code.co_filename, b.f_code.co_name) in self.shared:
+                return True
+        if self.only_shared:
+            return False
         if fn == "<string>":
             return True
         if fn == self.evfile and code.co_name in self.names:
@@ -466,7 +650,7 @@ class Explorer:
                 return local
 
             def tracer(frame, event, arg):
-                if event == "call" and self.interesting(frame.f_code):
+                if event == "call" and self.interesting(frame.f_code, frame):
                     return local
                 return None
             go[i].acquire()
@@ -508,10 +692,10 @@ class Explorer:
         return [r or "none" for r in res], points
 
 
-def explore(threads, bound: int, rng: random.Random, budget: int):
+def explore(threads, bound: int, rng: random.Random, budget: int, points: str = "all"):
     """outcome sets of every thread over the schedules with at most `bound` preemptions (all single preemptions; a seeded
     sample of `budget` double preemptions); returns (sets, runs, points, first schedule per outcome)"""
-    ex = Explorer(threads)
+    ex = Explorer(threads, points)
     n = ex.n
     _, pts = ex.run([(i, 10 ** 6) for i in range(n)])          # every point stepped: counts the scheduling points
     sets = [set() for _ in range(n)]
@@ -625,6 +809,48 @@ def gen_thread(rng, i, shared_names: bool, runner=None, gate=False):
     used = sorted({x for x in json.dumps(e).replace('"', " ").replace(",", " ").replace("[", " ").replace("]", " ").split() if x in vars_})
     binds = [[v, rng.choice([1, 2, 3])] for v in used if rng.random() < 0.9]
     return {"runner": runner or rng.choice(["C", "C", "I"]), "expr": e, "binds": binds}
+
+
+# ---- (6) string functions: the same base function in every thread, each thread with its own argument -----------------------------
+
+STRING_FNS = ["matches", "contains", "startsWith", "endsWith"]
+
+
+def gen_string_thread(rng, i, shared_names: bool, runner=None, fn=None, letters="abcd"):
+    """a thread that applies ONE base function with ONE argument of its own (pattern / fragment over its own letter) to several
+    strings — a macro over a list, or a conjunction of calls —, so that anything a base function remembers from its last call
+    (compiled pattern, last argument, scratch result) belongs to a different thread's argument most of the time"""
+    c = letters[i % len(letters)]
+    fn = fn or rng.choice(STRING_FNS)
+    arg = {"matches": rng.choice([f"^{c}+$", f"^{c}{c}*$", f"{c}{c}"]), "contains": c * rng.choice([1, 2]),
+           "startsWith": c, "endsWith": c}[fn]
+    k = rng.choice([2, 3, 3, 4])
+    names = [f"s{j}" for j in range(k)] if shared_names else [f"s{i}_{j}" for j in range(k)]
+    other = letters[(i + 1) % len(letters)]
+    vals = [c * rng.choice([1, 2, 3]) if rng.random() < 0.9 else other * 2 for _ in range(k)]
+    binds = [[n, v] for n, v in zip(names, vals)]
+    a = ["lit", arg]
+    if rng.random() < 0.3:
+        pv = "p" if shared_names else f"p{i}"
+        a = ["var", pv]
+        binds.append([pv, arg])
+    r = rng.random()
+    if r < 0.3:
+        e = ["smacro", "all", names, fn, a, 0]
+    elif r < 0.4:
+        e = ["smacro", "exists", names, fn, a, 0]
+    elif r < 0.8:
+        e = ["smacro", "count", names, fn, a, rng.choice([-1, -1, -1, k, k - 1])]
+    else:
+        e = ["sfn", fn, names[0], a]
+        for n in names[1:]:
+            e = [rng.choice(["and", "and", "or"]), e, ["sfn", fn, n, a]]
+    if rng.random() < 0.25 and not (e[0] == "smacro" and e[5] < 0):
+        ivars = ["x", "y"] if shared_names else [f"x{i}", f"y{i}"]
+        at = gen_atom(rng, ivars)
+        e = [rng.choice(["and", "or"]), e, at]
+        binds.append([at[1], rng.choice([1, 2, 3])])
+    return {"runner": runner or rng.choice(["C", "I"]), "expr": e, "binds": binds}
 
 
 # ---- (5) deep expressions and hold scenarios ----------------------------------------------------------------------
@@ -762,6 +988,37 @@ def steps_templates(rng):
     return out
 
 
+def fault_templates(rng):
+    """Round 3: step-ordered scenarios in which one thread's history contains steps that FAIL — a syntax error in `compile`
+    (CELParseError, caught by the application as documented), an evaluation error (unbound variable), a host function that
+    raises — before it goes on with well-formed work, while the other threads do well-formed work only.  Whatever the failing
+    step acquired, counted or marked on its way in must have been given back: the other threads' steps (and the thread's own later
+    steps) return what they return alone."""
+    out = []
+    bad_src = rng.choice([None, None, {"src": "x * * 2"}, {"src": "'abc"}, {"src": "[1, 2"}, {"src": "x ? 1"}])
+    kA = rng.choice("IC")
+    good = rng.choice(["x * 2 + 1", "x + 1 == 3 || false", "[1, 2].map(i, i + x)"])
+    A = [["E", kA, None, []], ["P", 0, bad_src], ["P", 0, {"src": good}], ["G", 0, 0], ["V", 0, [["x", ["i", 20]]]]]
+    others = []
+    for i in range(rng.choice([1, 1, 2])):
+        k = rng.choice("IC") if i else ("C" if kA == "I" else rng.choice("IC"))
+        others.append([["E", k, None, []], ["P", 0, {"src": rng.choice(["x * 2 + 1", "x > 1 && x < 5", "size([x, x]) + x"])}],
+                       ["G", 0, 0], ["V", 0, [["x", ["i", 2 + i]]]]])
+    out.append(("fault-compile", [A] + others))
+    # evaluation errors and raising host functions, then the same program evaluated properly
+    kB = rng.choice("IC")
+    form = rng.choice(["dict", "list"])
+    B = [["E", kB, None, []], ["P", 0, {"src": "score(x) + y"}], ["G", 0, 0, {"form": form, "fns": [["score", "plus", 1]]}],
+         ["V", 0, [["x", ["i", 1]]]],                       # y unbound: CELEvalError
+         ["V", 0, [["x", ["s", "a"]], ["y", ["i", 1]]]],    # the host function raises (int('a'))
+         ["P", 0, rng.choice([None, {"src": "1 +* 2"}])],   # and a syntax error
+         ["V", 0, [["x", ["i", 1]], ["y", ["i", 1]]]]]
+    C = [["E", rng.choice("IC"), None, []], ["P", 0, {"src": "score(x) + y"}], ["G", 0, 0, {"form": form, "fns": [["score", "plus", 100]]}],
+         ["V", 0, [["x", ["i", 1]], ["y", ["i", 1]]]]]
+    out.append(("fault-evaluate", [B, C]))
+    return out
+
+
 def step_orders(rng, lens: List[int], how_many: int):
     """global orders of the steps: structured ones (one after the other, the other way round, each thread's last step held
     back until every other thread is done, strict alternation, environments first) and a seeded sample of the rest"""
@@ -843,8 +1100,13 @@ class C16(Prop):
             "create-environment / compile / program / evaluate / evaluate are separately ordered steps (different annotations with colliding "
             "dotted names, mixed runner classes, host functions as list/dict with the same name, built-in overrides, dotted bindings), run "
             "in a pristine process per order (structured orders + seeded sample), every step compared with the thread alone in a fresh "
-            "process; non-trivial = scenario with at least one compiled thread whose program defines ex_N names, or a step order that "
-            "really interleaves")
+            "process; (5) string scenarios: every thread applies one base function (matches/contains/startsWith/endsWith) with its own "
+            "argument to several strings, explorer preempting at every line of the functions that write or read process-wide state "
+            "(found by an ast scan of the package) and of their direct callees, + free-running; (6) step-ordered scenarios with FAILING "
+            "steps (syntax error in compile, evaluation error, raising host function) in one thread; a step that never returns is "
+            "diagnosed (thread CPU clock and stack stand still while all other threads are idle outside the library, twice) and is an "
+            "outcome `HANG`, a merely slow step is a tool timeout; non-trivial = scenario with at least one compiled thread whose "
+            "program defines ex_N names, or a step order that really interleaves")
 
     def __init__(self):
         self._cache: Dict[str, Any] = {}
@@ -903,6 +1165,25 @@ class C16(Prop):
             for name, ths in steps_templates(rng):
                 for o in step_orders(rng, [len(t) for t in ths], 9 if quick else 40):
                     steps.append({"kind": "steps", "family": name, "threads": ths, "order": o})
+        # ---- round 3 (generated last: the draws of the scenarios above are those of rounds 1-2 for every seed) ----
+        r3 = []
+        # round 3: every thread applies a base function (matches/contains/…) with its own argument to several strings
+        # (the same function in all threads of a scenario, each function in turn); explorer preempting only where process-wide
+        # state is accessed ("points": "shared" — no such place during an evaluation on the unchanged tree), and free-running
+        for k in range(4 if quick else 24):
+            shared = rng.random() < 0.5
+            n = 2 if rng.random() < 0.8 else 3
+            ths = [gen_string_thread(rng, i, shared, "IC"[(i + k // 4) % 2] if k < 8 else None, STRING_FNS[k % 4]) for i in range(n)]
+            r3.append({"kind": "explore", "threads": ths, "bound": 2, "budget": 40 if quick else 200,
+                          "seed": rng.randrange(10 ** 6), "points": "shared"})
+        for _ in range(1 if quick else 4):
+            ths = [gen_string_thread(rng, i, True) for i in range(4)]
+            r3.append({"kind": "stress", "threads": ths, "reps": 100 if quick else 2000})
+        for rep in range(1 if quick else 6):
+            for name, ths in fault_templates(rng):
+                for o in step_orders(rng, [len(t) for t in ths], 7 if quick else 30):
+                    steps.append({"kind": "steps", "family": name, "threads": ths, "order": o})
+        cases += r3
         from ..core import corpus_cases
         corp = corpus_cases(self.pid)
         self.prefetch_solo([c for c in corp + cases + holds if c.get("kind") in ("gate", "explore", "stress", "hold")])
@@ -1001,7 +1282,7 @@ class C16(Prop):
             r = gate_replay(ths)
             out = " ".join(f"{i}={x}" for i, x in enumerate(r))
         elif c["kind"] == "explore":
-            sets, runs, pts, wit = explore(ths, c.get("bound", 2), random.Random(c.get("seed", 0)), c.get("budget", 40))
+            sets, runs, pts, wit = explore(ths, c.get("bound", 2), random.Random(c.get("seed", 0)), c.get("budget", 40), c.get("points", "all"))
             info.update(runs=runs, points=pts, witness=wit)
             out = " ".join(f"{i}=" + ",".join(s) for i, s in enumerate(sets))
         elif c["kind"] == "stress":
